@@ -7,6 +7,7 @@ pub mod c04;
 pub mod c07;
 pub mod c15;
 pub mod u1;
+pub mod gen_attach;
 pub mod gen_float_table;
 pub mod gen_value_table;
 pub mod u4;
